@@ -296,6 +296,8 @@ def run_history(cfg, ops, props, known=()):
             ok = False
             err = repr(ex)[:160]
         after = checks.snapshot(seq)
+        if not ok and after != before:
+            ctx["partial_failure"] = True      # (a C09 finding) the state is no longer the effect of the successful calls alone
         for p in props:
             fn = getattr(checks, "check_" + p, None)
             if fn is None:
@@ -305,6 +307,12 @@ def run_history(cfg, ops, props, known=()):
                 failures.append(dict(prop=p, clause=msg, step=i, op=op, known=kf, error=None if ok else err))
         if failures and len(failures) > 3:
             break
+    for p in props:
+        fn = getattr(checks, "final_" + p, None)
+        if fn is not None and not failures and not ctx.get("partial_failure"):
+            for msg, extra in fn(seq, cfg, ctx, build_device, random.Random(len(ops))):
+                kf = checks.classify_known(p, msg, ("final", extra), cfg, None, None, known)
+                failures.append(dict(prop=p, clause=msg, step=len(ops) - 1, op=("final", extra), known=kf, error=None))
     return failures
 
 
